@@ -34,6 +34,9 @@ type Opt struct {
 	// Set applies the option to the expected options message (descriptorpb.*Options); nil for
 	// options the expected-descriptor builder does not model (those files skip the C02 comparison).
 	Set func(opts any) `json:"-"`
+	// IsCustom marks statements of generated custom options; their expected values are checked
+	// through Workspace.Sites against the compiled schema, not through Set.
+	IsCustom bool
 }
 
 // File is one .proto file.
@@ -65,6 +68,8 @@ type Message struct {
 	Reserved      []Range
 	ReservedNames []string
 	Options       []Opt
+	OneofOpts     map[int][]Opt // options declared inside oneof bodies
+	ExtRangeOpts  []Opt         // options of the (single) extensions statement
 	IsGroup       bool
 	Editions      bool // declared in an editions file (reserved names are identifiers)
 }
@@ -137,6 +142,10 @@ type Extend struct {
 // Workspace is a set of files with an import DAG.
 type Workspace struct {
 	Files []*File
+	// Extra holds constant source files that are not part of the model (the custom option schema).
+	Extra map[string]string
+	// Sites lists where generated custom options were placed.
+	Sites []*CustomSite
 }
 
 // ByName returns the file with the given name.
